@@ -59,14 +59,14 @@ def c01(tier, seed):
     try:
         obs = vlib.Obs()
         b = build_fieldmon(work)
-        R = reps(tier, 1500, 60000)
+        R = reps(tier, 1500, 400000)
         jobs = [dict(VP_MODE='read', VP_FORMATS=f, VP_REPS=R) for f in format_ids()]
         jobs.append(dict(VP_MODE='raw', VP_FORMATS='all', VP_REPS=reps(tier, 128, 4096)))
         run_modes(obs, b, jobs, seed)
         filt(obs, ['read:', 'raw:RAW:get'])
         cov = dict(distinct_nontrivial=int(obs.stats.get('nontrivial', 0)),
                    rule='every spec field x {generic, dedicated} path x {zero, ones, checkerboards, field-saturated, field-cleared, '
-                        'walking-1 and walking-0 over every header bit, %d random buffers}; raw reader over start quadlet '
+                        'walking-1 and walking-0 over every header bit, every value of fields up to 12 bits wide, %d random buffers}; raw reader over start quadlet '
                         '{0..7,11,30,61} x bit offset 0..31 x width 0..64.  A (field,path) or descriptor shape counts as '
                         'non-trivial when the observed results were not all equal / a write changed bytes.' % R,
                    exhaustive=False, formats=len(format_ids()))
@@ -81,7 +81,7 @@ def c02(tier, seed):
     try:
         obs = vlib.Obs()
         b = build_fieldmon(work)
-        R = reps(tier, 1500, 60000)
+        R = reps(tier, 1500, 400000)
         jobs = [dict(VP_MODE='write', VP_FORMATS=f, VP_REPS=R) for f in format_ids()]
         jobs.append(dict(VP_MODE='raw', VP_FORMATS='all', VP_REPS=reps(tier, 128, 4096)))
         run_modes(obs, b, jobs, seed)
@@ -89,7 +89,7 @@ def c02(tier, seed):
         cov = dict(distinct_nontrivial=int(obs.stats.get('nontrivial', 0)),
                    rule='every spec field x {generic, dedicated} path x prior buffers {zero, ones, checkerboards, random} x 14 value '
                         'classes (0,1,max,msb,2^w,2^w+1,2^64-1,alternating,walking,random-fit,random-64) + every single bit of the '
-                        'field set/cleared + %d random (buffer,value) pairs; whole 8 KiB arena compared with the model after each '
+                        'field set/cleared + every value of fields up to 12 bits wide (plain and with garbage above the width) + %d random (buffer,value) pairs; whole 8 KiB arena compared with the model after each '
                         'write, then read back.  Non-trivial: the write changed at least one bit.' % R,
                    exhaustive=False, formats=len(format_ids()))
         return vlib.finish('C02', 'exploration', tier, seed, obs, cov, ASSUME_COMMON, t0, min_evals=100000)
@@ -127,7 +127,7 @@ def c04(tier, seed):
     try:
         obs = vlib.Obs()
         b = build_fieldmon(work)
-        R = reps(tier, 3000, 200000)
+        R = reps(tier, 3000, 1000000)
         run_modes(obs, b, [dict(VP_MODE='init', VP_FORMATS=f, VP_REPS=R) for f in format_ids()], seed)
         filt(obs, ['init:'])
         cov = dict(distinct_nontrivial=int(obs.stats.get('nontrivial', 0)),
@@ -146,7 +146,7 @@ def c05(tier, seed):
     try:
         obs = vlib.Obs()
         b = build_fieldmon(work)
-        E = reps(tier, 400, 40000)
+        E = reps(tier, 400, 120000)
         run_modes(obs, b, [dict(VP_MODE='history', VP_FORMATS=f, VP_EPISODES=E) for f in format_ids()], seed)
         filt(obs, ['history:'])
         cov = dict(distinct_nontrivial=int(obs.stats.get('history.distinct_histories', 0)),
@@ -168,7 +168,7 @@ def c11(tier, seed):
     try:
         obs = vlib.Obs()
         b = build_fieldmon(work)
-        seeds = range(reps(tier, 4, 200))
+        seeds = range(reps(tier, 4, 600))
         jobs = [dict(VP_MODE='badargs', VP_FORMATS=f, VP_SEED=int(seed) * 1000 + s) for f in format_ids() for s in seeds]
         run_modes(obs, b, jobs, seed)
         filt(obs, ['badargs:'])
@@ -191,7 +191,7 @@ def c12(tier, seed):
     try:
         obs = vlib.Obs()
         b = build_fieldmon(work)
-        R = reps(tier, 3000, 300000)
+        R = reps(tier, 3000, 1000000)
         fm = [f['id'] for f in S.load()['formats'] if f['legacy']]
         run_modes(obs, b, [dict(VP_MODE='legacy', VP_FORMATS=f, VP_REPS=R) for f in fm], seed)
         filt(obs, ['legacy:'])
@@ -212,7 +212,7 @@ def c17(tier, seed):
     try:
         obs = vlib.Obs()
         b = build_fieldmon(work)
-        R = reps(tier, 1500, 100000)
+        R = reps(tier, 1500, 300000)
         sp = S.load()
         hubs = sorted(set(a for a, _, _, _ in sp['shares']))
         run_modes(obs, b, [dict(VP_MODE='views', VP_FORMATS=f, VP_REPS=R) for f in hubs], seed)
